@@ -140,6 +140,67 @@ def oracle(ctx, seeds=None):
                 bad('prim', r1, 2 * r, r); bad('prim', V1[0], 1.0, 1.0); bad('prim', V1[1], 2.0, 1.0); bad('prim', p1, 3 * p, p)
             else:
                 res.fail('2d/' + name + ':no-definition', "registered boundary condition without a stated definition", rp)
+    # ---- statelessness over call histories: ONE parameter dictionary reused, updated in place, used on both sides
+    for name in sorted(impl.euler.euler1d()._bcdict.dict.keys()):
+        for i in range(ctx.n(4, 40)):
+            g = gens.gamma(ctx.rng)
+            m = impl.euler.euler1d(gamma=g)
+            shared = {}
+            for step in range(3):
+                d = [-1, 1, -1][step] if i % 2 == 0 else [1, 1, -1][step]
+                cases = [c for c in bc_cases_euler(ctx, 1) if c[0] == name]
+                if not cases:
+                    break
+                _, _, _, W, par = cases[0]
+                W = (W[0], W[1], W[2])
+                shared.clear() if False else None
+                for k in list(shared.keys()):
+                    if k in par or k in ('ptot', 'rttot', 'p', 'prim'):
+                        del shared[k]
+                shared.update(par)                      # the caller edits its own dictionary in place
+                data = [np.array([x]) for x in W]
+                ok1, out_shared = impl.guarded(m.namedBC, name, d, data, shared)
+                ok2, out_fresh = impl.guarded(m.namedBC, name, d, [np.array([x]) for x in W], dict(par))
+                res.case((name, 'history', step, d))
+                if not ok1 or not ok2:
+                    res.fail(name + ':history-raised', out_shared if not ok1 else out_fresh, dict(bc=name, kind='history')); break
+                a = np.array([float(np.ravel(x)[0]) for x in out_shared]); b = np.array([float(np.ravel(x)[0]) for x in out_fresh])
+                if not np.all((np.abs(a - b) <= 1e-13 * (np.abs(b) + 1e-300)) | (np.isnan(a) & np.isnan(b))):
+                    res.fail(name + ':depends-on-call-history', "call %d with a reused parameter dictionary returns %r, a fresh dictionary with the same parameters gives %r (dir=%d)" % (step, a.tolist(), b.tolist(), d),
+                             dict(bc=name, kind='history', gamma=g)); break
+    # ---- 2D boundary states as produced by the pipeline (fvm2dcart.rhs): inlets with an oblique angle on every side
+    import cfg2d
+    for i in range(ctx.n(24, 300)):
+        side = ['left', 'right', 'bottom', 'top'][i % 4]
+        cfg = cfg2d.rand_config2d(ctx.rng, per=True, nx=int(ctx.rng.integers(1, 5)), ny=int(ctx.rng.integers(1, 5)))
+        g = cfg['gamma']
+        pmean = float(np.mean(cfg['prim'][3])); rmean = float(np.mean(cfg['prim'][0]))
+        base = {'left': 0.0, 'right': 180.0, 'bottom': 90.0, 'top': -90.0}[side]
+        ang = float(base + ctx.rng.choice([0.0, 30.0, -20.0, 45.0, 60.0]))
+        inl = {'type': 'insup', 'ptot': pmean * 2.5, 'rttot': pmean / rmean * 1.3, 'p': pmean * 0.9, 'angle': ang}
+        other = {'left': 'right', 'right': 'left', 'bottom': 'top', 'top': 'bottom'}[side]
+        cfg['bc'] = {t: {'type': 'per'} for t in ('left', 'right', 'bottom', 'top')}
+        cfg['bc'][side] = inl; cfg['bc'][other] = {'type': 'outsup'}
+        def run():
+            mod, msh, disc, f = cfg2d.build2d(cfg)
+            disc.rhs(f)
+            idx = msh.index_of_bc(side)
+            arr = disc.pL if msh.bcface_orientation(side) == 'inward' else disc.pR
+            return np.asarray(arr[0])[idx], np.asarray(arr[1])[:, idx], np.asarray(arr[2])[idx]
+        ok, out = impl.guarded(run)
+        res.case(('2d-pipeline-insup', side, ang - base))
+        rp = dict(bc='2d/insup-through-rhs', side=side, angle=ang, cfg2d=cfg)
+        if not ok:
+            res.fail('2d/insup:pipeline-raised', out, rp); continue
+        r1, V1, p1 = out
+        a = np.deg2rad(ang)
+        for j in range(len(r1)):
+            pt, rt = totals(g, float(r1[j]), float(np.hypot(V1[0, j], V1[1, j])), float(p1[j]))
+            if abs(pt - inl['ptot']) > 1e-9 * inl['ptot'] or abs(rt - inl['rttot']) > 1e-9 * inl['rttot'] or abs(p1[j] - inl['p']) > 1e-12 * inl['p']:
+                res.fail('2d/insup:pipeline-totals:%s' % side, "boundary face state produced by fvm2d.rhs on side %s with angle %r: ptot %r (imposed %r), rttot %r (imposed %r)" % (side, ang, pt, inl['ptot'], rt, inl['rttot']), rp); break
+            vm = float(np.hypot(V1[0, j], V1[1, j]))
+            if abs(V1[0, j] * (-np.sin(a)) + V1[1, j] * np.cos(a)) > 1e-9 * (vm + 1e-300) or V1[0, j] * np.cos(a) + V1[1, j] * np.sin(a) < 0:
+                res.fail('2d/insup:pipeline-direction:%s' % side, "velocity %r is not along the requested angle %r" % (V1[:, j].tolist(), ang), rp); break
     # shallow water
     ms = impl.shallowwater.shallowwater1d()
     for name in sorted(ms._bcdict.dict.keys()):
